@@ -295,6 +295,30 @@ b("triples-write-utf16", "C15", TRI, 'yield open(path, mode="r" if read else "w"
 b("file-helper-write-encoding", "C16", API, '        with path.open("w") as file_out:', '        with path.open("w", encoding="utf-8") as file_out:', "C16-D5")
 
 
+# ------------------------------------------------------------------------------------- round-3 rules
+REC_HEAD = '    .. seealso:: https://github.com/cthoyt/curies/issues/70\n    """\n\n    prefix: str = Field(\n'
+b("record-strip-whitespace", "C04 C13 C19 C01", API, REC_HEAD, REC_HEAD.replace("    prefix: str = Field(\n", "    model_config = ConfigDict(str_strip_whitespace=True)\n\n    prefix: str = Field(\n"), "C04-X8 C13-X8 C19-X8 C01-X8")
+b("record-to-lower", "C04 C05", API, REC_HEAD, REC_HEAD.replace("    prefix: str = Field(\n", "    model_config = ConfigDict(str_to_lower=True)\n\n    prefix: str = Field(\n"), "C04-X8 C05-X8")
+t("twin-record-config-extra-forbid", "C04 C13 C19 C01 C14", API, REC_HEAD, REC_HEAD.replace("    prefix: str = Field(\n", "    model_config = ConfigDict(extra=\"ignore\", str_strip_whitespace=False)\n\n    prefix: str = Field(\n"))
+b("init-sort-in-place", "C04 C05 C02 C10", API, "        records = sorted(records, key=lambda r: r.prefix)\n", "        if not isinstance(records, list):\n            records = list(records)\n        records.sort(key=lambda r: r.prefix)\n", "C04-X10 C05-X10 C02-X10 C10-X10")
+b("init-validate-before-materialise", "C01 C04", API, "        records = sorted(records, key=lambda r: r.prefix)\n        if strict:\n            duplicate_uri_prefixes = _get_duplicate_uri_prefixes(records)\n            if duplicate_uri_prefixes:\n                raise DuplicateURIPrefixes(duplicate_uri_prefixes)\n            duplicate_prefixes = _get_duplicate_prefixes(records)\n            if duplicate_prefixes:\n                raise DuplicatePrefixes(duplicate_prefixes)\n", "        if strict:\n            duplicate_uri_prefixes = _get_duplicate_uri_prefixes(records)\n            if duplicate_uri_prefixes:\n                raise DuplicateURIPrefixes(duplicate_uri_prefixes)\n            duplicate_prefixes = _get_duplicate_prefixes(records)\n            if duplicate_prefixes:\n                raise DuplicatePrefixes(duplicate_prefixes)\n        records = sorted(records, key=lambda r: r.prefix)\n", "C01-X10 C04-X10")
+t("twin-init-list-then-sorted", "C01 C02 C04 C05 C10 C13", API, "        records = sorted(records, key=lambda r: r.prefix)\n", "        records = sorted(list(records), key=lambda r: r.prefix)\n")
+b("index-synonym-slice", "C02 C05 C07 C06", API, "        for prefix_synonym in record.prefix_synonyms:\n            self.prefix_map[prefix_synonym] = record.uri_prefix\n", "        for prefix_synonym in record.prefix_synonyms[1:]:\n            self.prefix_map[prefix_synonym] = record.uri_prefix\n", "C02-D4 C05-D1 C07-X7 C06-X7")
+t("twin-index-synonym-full-slice", "C02 C05 C07 C06 C01", API, "        for prefix_synonym in record.prefix_synonyms:\n            self.prefix_map[prefix_synonym] = record.uri_prefix\n", "        for prefix_synonym in record.prefix_synonyms[:]:\n            self.prefix_map[prefix_synonym] = record.uri_prefix\n")
+b("is-curie-excludes-uris", "C07", API, "        try:\n            return self.expand(s) is not None\n", "        if self.is_uri(s):\n            return False\n        try:\n            return self.expand(s) is not None\n", "C07-D1")
+b("in-binary-search", "C05 C09", API, "    if case_sensitive:\n        return a in bs\n", "    if case_sensitive:\n        import bisect\n        i = bisect.bisect_left(bs, a)\n        return i < len(bs) and bs[i] == a\n", "C05-D6 C09-D2")
+b("remap-deletes-from-argument", "C10", REC, "    ordering = _order_curie_remapping(converter, remapping)\n", "    for k in [k for k, v in remapping.items() if k == v]:\n        del remapping[k]\n    ordering = _order_curie_remapping(converter, remapping)\n", "C10-D4")
+t("twin-remap-copies-argument", "C10 C11", REC, "    ordering = _order_curie_remapping(converter, remapping)\n", "    remapping = dict(remapping)\n    ordering = _order_curie_remapping(converter, remapping)\n")
+b("dup-detector-casefold", "C04 C19", API, "        if uri_prefix == up2\n", "        if uri_prefix.casefold() == up2.casefold()\n", "C04-D2 C19-X4")
+b("context-pop", "C15", API, '        return context.get("converter")\n', '        return context.pop("converter", None)\n', "C15-D5")
+b("file-helper-splitlines", "C16", API, "            reader = csv.reader(file_in, delimiter=delimiter)\n", "            reader = csv.reader(file_in.read().splitlines(), delimiter=delimiter)\n", "C16-D4")
+b("sparql-optimise-conditionally", "C18", "mapping_service/rdflib_custom.py", "        query.algebra = _optimize_node(query.algebra)\n", "        if DEBUG:\n            query.algebra = _optimize_node(query.algebra)\n", "C18-D9")
+b("sparql-optimise-no-recursion", "C18", "mapping_service/rdflib_custom.py", "    for inner_comp_value in comp_value.values():\n        if isinstance(inner_comp_value, CompValue):\n            _optimize_node(inner_comp_value)\n", "", "C18-D9")
+b("flask-accept-best", "C18", MSA, 'handle_header(request.headers.get("accept"))', "handle_header(request.accept_mimetypes.best)", "C18-D6")
+t("twin-flask-accept-subscript-default", "C18", MSA, 'handle_header(request.headers.get("accept"))', 'handle_header(request.headers.get("Accept", None))')
+b("get-prefixes-set-union-star", "C17", API, "            rv.update(\n                prefix_synonym\n                for record in self.records\n                for prefix_synonym in record.prefix_synonyms\n            )\n", "            rv |= set.union(*(set(r.prefix_synonyms) for r in self.records))\n", "")
+
+
 def apply_unified_diff(files: dict, diff_text: str) -> dict | None:
     """Apply a unified diff (git format, paths a/src/curies/...) to an in-memory tree; None if it does not fit."""
     import re as _re
